@@ -60,6 +60,9 @@ def gen_comp(rng, name="comp", step=60):
     bn = 0
     prev = None
     master_mode = rng.random() < 0.3
+    # builds without tags: the build number is kept in VERSION and a commit whose number differs from its
+    # parents' is a build
+    saved_mode = not master_mode and rng.random() < 0.15
     # the release line of the main line: 10.20, or 0.9 (a major version of zero)
     major, minor = rng.choice([(10, 20), (10, 20), (0, 9)])
     if master_mode:
@@ -70,6 +73,16 @@ def gen_comp(rng, name="comp", step=60):
         if master_mode and cid > 1 and rng.random() < 0.3:
             minor += 1
         files = {"VERSION": "%d.%d" % (major, minor)} if master_mode else {}
+        if saved_mode:
+            # (the first and the last commit always change the number: a head that only repeats the number of an
+            # earlier build is reported under that number - what that means is left open, see DESIGN 6.2)
+            if cid == 1 or cid == m or rng.random() < 0.6:
+                bn += 1
+                versions.append((cid, (major, minor, bn)))
+            commits[cid] = mg.Commit(name, cid, [prev] if prev else [], msg, base + cid * step,
+                                     {"VERSION": "%d.%d.%d" % (major, minor, bn)})
+            prev = commits[cid]
+            continue
         commits[cid] = mg.Commit(name, cid, [prev] if prev else [], msg, base + cid * step, files)
         prev = commits[cid]
         if rng.random() < 0.6:
@@ -79,7 +92,7 @@ def gen_comp(rng, name="comp", step=60):
                 tags[f"build_{bn}_master_success" if master_mode else f"build_{bn}_release_{rel}_success"] = cid
                 versions.append((cid, (major, minor, bn)))
     heads = {"origin/master" if master_mode else "origin/release/%d.%d" % (major, minor if not master_mode else 20): m}
-    if rng.random() < 0.5:
+    if rng.random() < 0.5 and not saved_mode:
         f = rng.randint(1, m)
         prev = commits[f]
         k = rng.randint(1, 4)
@@ -143,13 +156,41 @@ def gen_parent(rng, versions, versions2=None, comp=None, comp2=None, step=60):
     return mg.Repo("par", commits, heads, tags), pins, pins2
 
 
+def grow(comp, par, versions, pins, how, second=None):
+    """how = {"branch": parent branch name}.  The component's main head gets one more build tag; a new parent
+    commit that pins this build becomes the head of a parent branch and is built"""
+    main_branch = next(b for b in comp.branches if b != "origin/release/10.30")
+    h = comp.branches[main_branch]
+    bn = 1 + max(int(re.match(r"build_(\d+)_", t).group(1)) for t in comp.tags)
+    major, minor = versions[-1][1][0], versions[-1][1][1]
+    vfile = comp.commits[h].tree.files.get("VERSION")
+    if main_branch == "origin/master":
+        major, minor = [int(x) for x in vfile.data.decode().split(".")]
+        comp.add_tag("build_%d_master_success" % bn, h)
+    else:
+        comp.add_tag("build_%d_release_%d_%d_success" % (bn, major, minor), h)
+    versions.append((h, (major, minor, bn)))
+    branch = how["branch"]
+    hp = par.branches[branch]
+    depends = json.loads(par.commits[hp].tree.files["DEPENDS"].data.decode())
+    depends["comp"] = "%d.%d.%d" % (major, minor, bn)
+    cid = max(par.commits) + 1
+    ts = max(par.commits[hp].committed_date, comp.commits[h].committed_date) + 60
+    par.add_commit(cid, [hp], "misc %d" % cid, ts, {"DEPENDS": json.dumps(depends)}, branch=branch)
+    pbn = 1 + max([int(re.match(r"build_(\d+)_", t).group(1)) for t in par.tags] or [0])
+    par.add_tag("build_%d_release_5_0_success" % pbn, cid)
+    pins[cid] = len(versions) - 1
+    if second:
+        second[2][cid] = second[2][hp]       # (the pin of the other component stays what it was)
+
+
 def judge_a(ctx, comp, par, versions, pins, reverse_order, case, second=None, n_reports=1):
     """second = (comp2 repo, versions2, pins2) when the parent pins two components"""
     ctx.evaluated()
     order_in = [('par', (mg.PRepo2 if second else mg.PRepo)('par', par, 'origin')),
-                ('comp', mg.TRepo('comp', comp, 'origin'))]
+                ('comp', mg.component_repo_for('comp', comp))]
     if second:
-        order_in.insert(1, ('comp2', mg.TRepo('comp2', second[0], 'origin')))
+        order_in.insert(1, ('comp2', mg.component_repo_for('comp2', second[0])))
     if reverse_order:
         order_in.reverse()
     try:
@@ -158,8 +199,13 @@ def judge_a(ctx, comp, par, versions, pins, reverse_order, case, second=None, n_
         if sr[-1] != 'par' or sorted(sr) != sorted(n for n, _ in order_in):
             ctx.violation("component-not-analysed-first", {"sorted_repos": sr}, case)
             return
-        for _ in range(n_reports):
+        for k_rep in range(n_reports):
             # a long-lived collection is asked for reports several times: the last one is judged
+            if k_rep == n_reports - 1 and k_rep and case.get("grow") and comp.tags:
+                # ... and before the last one the repositories have grown (as after a fetch): the component
+                # was built once more and the parent, pinning that build, was built on top of a branch head
+                grow(comp, par, versions, pins, case["grow"], second)
+                ctx.count("repositories_grown_between_two_reports")
             data = dict(repos.make_reports_data(TEXT))
         if n_reports > 1:
             ctx.count("reports_on_a_reused_collection")
@@ -466,7 +512,9 @@ def run_shard(ctx):
             second = (comp2, versions2, pins2)
         rev = rng.random() < 0.5
         n_reports = rng.choice([1, 1, 2, 3])
-        case = {"kind": "histories", "comp": mg.describe(comp), "par": mg.describe(par),
+        case = {"kind": "histories", "grow": ({"branch": rng.choice(sorted(par.branches))}
+                                              if n_reports > 1 and rng.random() < 0.6 else None),
+                "comp": mg.describe(comp), "par": mg.describe(par),
                 "versions": [[c, list(v)] for c, v in versions], "pins": {str(k): v for k, v in pins.items()},
                 "reverse": rev, "n_reports": n_reports}
         if second:
